@@ -60,4 +60,47 @@ class C18(Prop):
         v.extra["total_days"] = res.get("total_days")
 
 
-PROPS = {"C17": C17(), "C18": C18()}
+class C19(Prop):
+    cmd = "c19"
+    cases = {"quick": 40000, "thorough": 1500000}
+    rule = ("decimal strings with <= 15 significant digits (9-chains, ties, zeros after the point, magnitudes 1e-7..1e15, negatives) x "
+            "19 patterns, through Cell::get_formatted_value and to_formatted_string; every built-in format id x 14 numbers; text under "
+            "General; distinct = distinct (bits, pattern, path) triples")
+    assumptions = ["oracle: Python decimal, Decimal(repr(x)).quantize(ROUND_HALF_UP) on the magnitude, sign kept, grouping by 3",
+                   "for a negative number whose rounded magnitude is zero both '-0.00' and '0.00' are accepted"]
+
+    def post(self, v, res, out, tier, seed):
+        sys.path.insert(0, os.path.join(vlib.VERIF, "monitors"))
+        import decfmt
+        n, distinct, counters, divs = decfmt.check_rows(out)
+        v.evaluations = n
+        v.distinct = distinct
+        v.observations = n
+        v.counters = counters
+        for sig, (cnt, exs) in divs.items():
+            for e in exs:
+                e.update({"cmd": "c19", "seed": seed, "case": 0})
+            v.add_divergence(sig, [], cnt, exs)
+
+
+class C20(Prop):
+    cmd = "c20"
+    cases = {"quick": 1200, "thorough": 30000}
+    rule = ("random sparse sheets (1-3 sheets, any active tab, gaps, text with commas / quotes / CR / LF / CRLF / tabs / padding / "
+            "per-encoding non-ASCII text, numbers, booleans) x all 60 option combinations (10 encodings x trim x wrap none/\"/'); "
+            "distinct = distinct (options, grid) by content hash")
+    assumptions = ["oracle: Python codecs for the byte decoding, own RFC-4180 parser (delimiter ',', quote = wrap character, or '\"' when none is configured)",
+                   "non-ASCII test text per legacy encoding is limited to characters on which Python's tables and WHATWG agree",
+                   "trim expectation uses Rust's White_Space set"]
+
+    def post(self, v, res, out, tier, seed):
+        sys.path.insert(0, os.path.join(vlib.VERIF, "monitors"))
+        import csv4180
+        n, counters, divs = csv4180.check(out)
+        v.counters.update(counters)
+        v.observations = n
+        for (sig, feats), (cnt, exs) in divs.items():
+            v.add_divergence(sig, list(feats), cnt, exs)
+
+
+PROPS = {"C20": C20(), "C19": C19(), "C17": C17(), "C18": C18()}
